@@ -49,16 +49,18 @@ impl Property for C13 {
         tier.pick(8_000, 250_000)
     }
     fn rule(&self) -> String {
-        "twin deployments with identical generated parameters (6 decimals, same reserves, ratios, fees, balances; unlimited cw20 allowances except the poor trader) and the same generated history applied in lock-step. Each op is resolved once against the cw20 world; the cw20 world runs first; the native call attaches exactly the amount the cw20 deployment pulled from the caller in that transaction (sum of TransferFrom{owner = caller} in the transfer log; zero if it pulled nothing or failed). After every op: same success/failure, all positions equal field by field, vAMM State and engine State equal, and equal balance deltas of caller, vault, insurance fund, fee pool and every other known account. Fees-from-the-vault clause: whenever the cw20 twin pulled fees from the caller in a ClosePosition, the same native call is also tried on a what-if copy with nothing attached and must not succeed (otherwise the fees came out of the vault). Non-trivial: a history with non-zero fees that contains a reversal or a successful ClosePosition, or a native call with non-zero attached funds followed by a refund to the caller. Distinct by digest of (cfg, ops).".into()
+        "twin deployments with identical generated parameters (6 decimals, same reserves, ratios, fees, balances; unlimited cw20 allowances for every trader) and the same generated history applied in lock-step. Each op is resolved once against the cw20 world; the cw20 world runs first; the native call attaches exactly the amount the cw20 deployment pulled from the caller in that transaction (sum of TransferFrom{owner = caller} in the transfer log; zero if it pulled nothing or failed). After every op: same success/failure, all positions equal field by field, vAMM State and engine State equal, and equal balance deltas of caller, vault, insurance fund, fee pool and every other known account. Fees-from-the-vault clause: whenever the cw20 twin pulled fees from the caller in a ClosePosition, the same native call is also tried on a what-if copy with nothing attached and must not succeed (otherwise the fees came out of the vault). Non-trivial: a history with non-zero fees that contains a reversal or a successful ClosePosition, or a native call with non-zero attached funds followed by a refund to the caller. Distinct by digest of (cfg, ops).".into()
     }
     fn assumptions(&self) -> Vec<String> {
-        vec!["the poor trader has a small wallet in both worlds and a small allowance in the cw20 world; failures caused by it count as failures on both sides".into()]
+        vec!["the poor trader has the same small wallet in both worlds (and, like everyone, an unlimited cw20 allowance: a cumulative allowance has no native counterpart); a transfer it cannot afford fails on both sides".into()]
     }
     fn run_case(&self, c: &HistCase, ctx: &Ctx) -> Outcome {
         let mut out = Outcome::default();
         let mut cfg_c = c.cfg.clone();
         cfg_c.native = false;
         cfg_c.decimals = 6;
+        // an allowance is used up cumulatively and has no native counterpart: only the wallet limits the poor trader
+        cfg_c.poor_unlimited_allowance = true;
         let mut cfg_n = cfg_c.clone();
         cfg_n.native = true;
         let (wc, wn) = match (World::build(&cfg_c), World::build(&cfg_n)) {
